@@ -43,8 +43,11 @@ def mode_name(c):
     raise KeyError(c)
 
 
+# ('byte', 'latin1'): an alias spelling of ISO-8859-1. The encoder compares the encoding NAME with 'iso-8859-1'; write_segment writes an
+# ECI header (assignment number 3) for every other name (C01.write_segment.*), so the sizing functions have to count one for it as well.
 SEG_CLASSES = (('numeric', None), ('alphanumeric', None), ('byte', 'iso-8859-1'),
-               ('byte', 'utf-8'), ('kanji', None), ('hanzi', None))
+               ('byte', 'utf-8'), ('byte', 'latin1'), ('kanji', None), ('hanzi', None))
+_SUFFIX = {'utf-8': '_noniso', 'latin1': '_alias'}
 
 
 def abstract_segments(I, modes_present=None, single=False):
@@ -58,10 +61,10 @@ def abstract_segments(I, modes_present=None, single=False):
     cnt = {}
     reps = {}
     for m, e in SEG_CLASSES:
-        c = I.fresh_int('n_%s_%s' % (m, 'eci' if e == 'utf-8' else 'x'), 0, None)
+        c = I.fresh_int('n_%s_%s' % (m, {'utf-8': 'eci', 'latin1': 'alias'}.get(e, 'x')), 0, None)
         cnt[(m, e)] = c
         reps[(m, e)] = TupObj(enc._Segment, (None, None, mode_const(m), e))
-        I.inputs['count_%s%s' % (m, '_noniso' if e == 'utf-8' else '')] = c
+        I.inputs['count_%s%s' % (m, _SUFFIX.get(e, ''))] = c
     payload = I.fresh_int('payload', 0, None)
     I.inputs['payload_bits'] = payload
     total = 0
@@ -76,7 +79,7 @@ def abstract_segments(I, modes_present=None, single=False):
     I.assume(payload >= 4 * cnt[('numeric', None)] + 6 * cnt[('alphanumeric', None)] + 13 * cnt[('kanji', None)])
     segs = Obj(enc.Segments)
     segs.attrs['segments'] = CountedList({reps[k]: cnt[k] for k in SEG_CLASSES})
-    byte_total = cnt[('byte', 'iso-8859-1')] + cnt[('byte', 'utf-8')]
+    byte_total = cnt[('byte', 'iso-8859-1')] + cnt[('byte', 'utf-8')] + cnt[('byte', 'latin1')]
     mcount = {mode_const('numeric'): cnt[('numeric', None)],
               mode_const('alphanumeric'): cnt[('alphanumeric', None)],
               mode_const('byte'): byte_total,
@@ -87,7 +90,7 @@ def abstract_segments(I, modes_present=None, single=False):
     parts = iso.Parts({iso.NUMERIC: cnt[('numeric', None)], iso.ALNUM: cnt[('alphanumeric', None)],
                        iso.BYTE: byte_total, iso.KANJI: cnt[('kanji', None)],
                        iso.HANZI: cnt[('hanzi', None)]},
-                      cnt[('byte', 'utf-8')], payload)
+                      cnt[('byte', 'utf-8')] + cnt[('byte', 'latin1')], payload)
     segs.ghost_total = total
     segs.ghost_parts = parts
     return segs, parts
